@@ -1,13 +1,13 @@
 """C38 — PipelineClient deadline calls return on time with bounded queues
 (specs/client/PipelineClient.tla refining PipelineObs.tla; exhaustive TLC + trace validation B2)."""
-import os, sys
+import os, re, sys
 from verif.core import Infra
 sys.path.insert(0, os.path.dirname(os.path.abspath(__file__)))
 import gpar
 META = dict(
     technique="TLC exhaustive model check of PipelineClient.tla (chW/chR queues, DoDeadline enqueue/wait with timers, Do's overflow substitution, writer take/expire/write/put, reader, worker dial/teardown, servers that answer/stall/close/refuse) incl. liveness of deadline calls and refinement of the observable spec PipelineObs.tla + TLC trace validation of recorded executions of a real PipelineClient against PipelineObs (B2) + measured return times",
     design_ref="DESIGN.md §4 C38, Appendix A.5",
-    text="PipelineClient.tla has one action per step of pipelineConnClient (DoDeadline: fast/blocked enqueue, timer in both waits; Do: enqueue or fail the oldest queued work with ErrPipelineOverflow, then retry or fail itself; writer: take, deadline test, write, put to chR with stop alternative; reader; worker teardown failing pending readers; restart). TLC checks OverflowNotSent, ResultClass, TimerArmed, QueueBound, InFlightBound, OnePlace, that every deadline call returns whatever the server does (fair timers), and that the model refines PipelineObs (the caller/wire/server-visible behaviour) for 3 calls, P in {1,2}, servers answer/stall/close/refuse. A real PipelineClient (MaxPendingRequests 1-2, MaxConns 1-2) is driven by 4-10 concurrent DoDeadline/DoTimeout/Do calls against in-memory servers that answer, answer slowly, stall, close or refuse; call start/return, request lines completed in the bytes the client wrote (instrumented conn) and server answers are logged in one order and validated by PipelineObsTrace (overflow only for never-written requests, ok only for the call's own answered request, <= P+2 unanswered requests per connection). Every deadline call's return time is compared with deadline + 1.5 s; overflow results are cross-checked against the client's written bytes and the server's log.",
+    text="PipelineClient.tla has one action per step of pipelineConnClient (DoDeadline: fast/blocked enqueue, timer in both waits; Do: enqueue or fail the oldest queued work with ErrPipelineOverflow, then retry or fail itself; writer: take, deadline test, write, put to chR with stop alternative; reader; worker teardown failing pending readers; restart). TLC checks OverflowNotSent, ResultClass, TimerArmed, QueueBound, InFlightBound, OnePlace, that every deadline call returns whatever the server does (fair timers), and that the model refines PipelineObs (the caller/wire/server-visible behaviour) for 3 calls, P in {1,2}, servers answer/stall/close/refuse. A real PipelineClient (MaxPendingRequests 1-2, MaxConns 1-2) is driven by 4-10 concurrent DoDeadline/DoTimeout/Do calls against in-memory servers that answer, answer slowly, stall, close or refuse; call start/return, request lines completed in the bytes the client wrote (instrumented conn) and server answers are logged in one order and validated by PipelineObsTrace (overflow only for never-written requests, ok only for the call's own answered request, <= P+2 unanswered requests per connection). Callers are goroutines issuing several calls in a row (a timed-out call is followed by further calls of the same goroutine while late answers still arrive); every result nil must carry the response the server produced for THAT request id. Every deadline call's return time is compared with deadline + 1.5 s; overflow results are cross-checked against the client's written bytes and the server's log. Two further drivers: thousands of calls with timeouts of 0..200 us against a stalled server from 8 goroutines (the deadline passes at every point of DoDeadline's entry path; each must still return), and a directed scenario where the server resets the connection while the writer's Write of a large request is held between chW and chR and a further request follows on the next connection.",
     note="No hook in client.go: the queues are observed through the wire. Trusted: the harness's instrumented connection and server, Go timers. A timing observation only becomes a violation when a call returns > 1.5 s after its deadline (or not within 4.5 s). Do calls (no deadline) are outside the property; the driver ends them by letting the server answer.",
 )
 
@@ -25,7 +25,29 @@ def run(ctx):
     res = gpar.par(ctx, jobs) if ctx.quick else {n: ctx.tlc(**kw) for n, kw in jobs.items()}
     for name, kw in jobs.items():
         gpar.account(ctx, res[name], "mc", kw)
-    recs = ctx.go_test(".", ["cl_", "c38_"], "^TestVerifC38", timeout=1700, env={"VERIF_C38_TRACES": ctx.pick(24, 240)})
+    try:
+        recs = ctx.go_test(".", ["cl_", "c38_"], "^TestVerifC38", timeout=1700,
+                           env={"VERIF_C38_TRACES": ctx.pick(24, 240), "VERIF_C38_TINY": ctx.pick(400, 4000),
+                                "VERIF_C38_HELD": ctx.pick(3, 20)})
+    except Infra as e:
+        # The client's own goroutines (writer / reader / worker) cannot be guarded by the harness:
+        # a panic there kills the test binary.  If the panicking goroutine runs no harness frame
+        # (zz_verif_*), the crash is behaviour of the code under test, not a harness problem.
+        msg = str(e)
+        i = msg.find("panic:")
+        if i < 0:
+            raise
+        blk = msg[i:].split("\n\n")
+        first = "\n".join(blk[:2])
+        if "zz_verif_" in first or "fasthttp.(*pipelineConnClient)" not in first:
+            raise
+        m = re.search(r"fasthttp\.\(\*pipelineConnClient\)\.(\w+)", first)
+        ctx.violation("crash:pipelineConnClient.%s" % (m.group(1) if m else "?"),
+                      "the PipelineClient's own goroutine panicked while the driver was running: " + first[:1200],
+                      dict(output=msg[i:i + 3000]))
+        ctx.exhaustive = False
+        ctx.rule = "driver aborted by a panic inside the PipelineClient"
+        return
     ctx.absorb(recs)
     tf = ctx.extra.pop("trace_file", None)
     if not tf:
